@@ -49,6 +49,7 @@ FLIPS = {
     "flip:logprob": ("fast_log_prob", False),
     "flip:solves": ("fast_solves", False),
     "flip:precond": ("min_preconditioning_size", 0),
+    "flip:mcs3": ("max_cholesky_size", 3),  # between component size (2, 3) and operator size (6, 9); wins over flip:mcs when both are on
 }
 DERIVS = ["d:add_jitter", "d:add_diagonal", "d:add_low_rank", "d:add_low_rank_noroots", "d:cat_rows", "d:cat_rows_noinv", "d:index", "d:mT", "d:mul2", "d:expand"]
 
@@ -359,7 +360,7 @@ class Explorer:
     def apply_settings(self, sp):
         env.settings_restore()
         env.set_settings(BASE)
-        env.set_settings({FLIPS[f][0]: FLIPS[f][1] for f in sp})
+        env.set_settings({FLIPS[f][0]: FLIPS[f][1] for f in sorted(sp, key=lambda f: (f == "flip:mcs3", f))})
 
     def step(self, op, M, sp, a):
         """applies action a; returns (op', M', sp', observation or None)"""
